@@ -193,10 +193,14 @@ func (in *Interp) fail(s *State, kind, label, pos string) {
 	f := &Failure{Kind: kind, Label: label, Pos: pos, Choices: s.choices()}
 	r, err := in.check(s)
 	if err == nil && r == smt.Sat {
-		m, _ := in.sol.Model(in.traceVars(s))
+		m, merr := in.sol.Model(in.traceVars(s))
+		if merr != nil {
+			fmt.Fprintln(os.Stderr, "model error:", merr)
+		}
 		f.Model = m
 		f.Vector = in.vector(s, m)
 	} else {
+		fmt.Fprintln(os.Stderr, "no model for failing state:", r, err)
 		f.Vector = in.vector(s, nil)
 	}
 	s.fails = append(s.fails, f)
@@ -409,7 +413,19 @@ func (in *Interp) addPC(s *State, c *term.Term) {
 		d = s.pc.depth + 1
 	}
 	s.pc = &pcNode{parent: s.pc, c: c, id: in.pcSeq, depth: d}
+	if debugPC {
+		r, _ := in.check(s)
+		if r == smt.Sat {
+			in.sol.Pop()
+		}
+		if r == smt.Unsat {
+			fmt.Fprintln(os.Stderr, "PC BECAME UNSAT adding", in.showTerm(c, 4), in.where(s))
+			panic("pc unsat")
+		}
+	}
 }
+
+var debugPC = os.Getenv("VERIF_CHECKPC") != ""
 
 func (in *Interp) check(s *State, extra ...*term.Term) (smt.Result, error) {
 	if in.cfg.NoIncremental {
@@ -515,6 +531,7 @@ func (in *Interp) concretize(s *State, f *Frame, v ssa.Value, what string) (int6
 	}
 	// enumerate feasible values
 	var vals []*term.Term
+	in.sol.Define(t)
 	conj := s.pcList()
 	for len(vals) <= in.cfg.MaxConcretize {
 		r, err := in.sol.Check(conj)
